@@ -93,20 +93,75 @@ pub fn expected_record_type(value: &[u8]) -> Option<RecordType> {
     })
 }
 
-/// A record value: real 2-byte kind header followed by a deterministic pseudo-random payload.
+/// A well-formed record value of the kind `kind_tag` selects (what validation hands to the store):
+/// a chunk of `len` pseudo-random bytes, or — for the signed kinds — one of a small pool of
+/// validly signed scratchpads / registers / transaction sets chosen by (`len` bucket, `seed`). The
+/// pool keeps BLS signing out of the hot path; different (len, seed) mostly give different values.
 pub fn make_value(kind_tag: u8, len: usize, seed: u32) -> Vec<u8> {
-    let mut v = RecordHeader { kind: kind_of(kind_tag) }
-        .try_serialize()
-        .expect("header")
-        .to_vec();
-    let mut x = (seed as u64).wrapping_mul(0x9e37_79b9_7f4a_7c15) | 1;
-    for _ in 0..len.max(1) {
-        x ^= x << 13;
-        x ^= x >> 7;
-        x ^= x << 17;
-        v.push((x >> 24) as u8);
+    use std::collections::HashMap;
+    use std::sync::{Mutex, OnceLock};
+    let kind = kind_of(kind_tag);
+    if kind == RecordKind::Chunk {
+        let mut x = (seed as u64).wrapping_mul(0x9e37_79b9_7f4a_7c15) | 1;
+        let mut payload = Vec::with_capacity(len.max(1));
+        for _ in 0..len.max(1) {
+            x ^= x << 13;
+            x ^= x >> 7;
+            x ^= x << 17;
+            payload.push((x >> 24) as u8);
+        }
+        let c = ant_protocol::storage::Chunk::new(bytes::Bytes::from(payload));
+        return vh_fix::chunk_record(&c).value;
     }
+    static POOL: OnceLock<Mutex<HashMap<(u8, u8, u8), Vec<u8>>>> = OnceLock::new();
+    let bucket: u8 = match len {
+        0..=63 => 0,
+        64..=2047 => 1,
+        _ => 2,
+    };
+    let pick = ((seed.wrapping_mul(2_654_435_761) >> 9) % 8) as u8;
+    let slot = (kind_tag % 4, bucket, pick);
+    let pool = POOL.get_or_init(|| Mutex::new(HashMap::new()));
+    if let Some(v) = pool.lock().unwrap().get(&slot) {
+        return v.clone();
+    }
+    let size = [12usize, 300, 6000][bucket as usize];
+    let id = bucket as u64 * 8 + pick as u64;
+    let key = RecordKey::new(&[0u8]);
+    let v = match kind {
+        RecordKind::Scratchpad => {
+            let pad = vh_fix::scratchpad(70 + id % 5, 1, vh_fix::pseudo_bytes(id, size), 1 + id % 7, vh_fix::Sig::Valid);
+            vh_fix::scratchpad_record(&pad).value
+        }
+        RecordKind::Register => {
+            let owner = 80 + id % 3;
+            let base = vh_fix::register_base(owner, id, Some(vec![]));
+            let n = [1usize, 2, 4][bucket as usize];
+            let ops = vh_fix::register_ops(owner, id, n, &[owner]);
+            vh_fix::register_record(key, &vh_fix::signed_register(&base, owner, ops)).value
+        }
+        _ => {
+            let owner = 90 + id % 5;
+            let n = [1u64, 2, 3][bucket as usize];
+            let txs: Vec<_> = (0..n).map(|i| vh_fix::transaction(owner, id * 4 + i, true)).collect();
+            vh_fix::transactions_record(key, &txs).value
+        }
+    };
+    pool.lock().unwrap().insert(slot, v.clone());
     v
+}
+
+/// A chunk record value of exactly `total` bytes (header and length prefix included).
+pub fn chunk_value_of_total_len(total: usize, seed: u32) -> Vec<u8> {
+    let mut len = total.saturating_sub(7).max(1);
+    for _ in 0..4 {
+        let v = make_value(0, len, seed);
+        if v.len() == total {
+            return v;
+        }
+        len = (len + total).saturating_sub(v.len()).max(1);
+    }
+    make_value(0, len, seed)
 }
 
 pub fn record(key: &RecordKey, value: Vec<u8>) -> Record {
